@@ -36,6 +36,9 @@ func c01Scenario() *Scenario {
 		one("exec(O,brec(W1,#1,submit_time=0))", model.Tx{Msgs: []model.Msg{{Kind: model.AuthzExec, From: "O", Inner: []model.Msg{{Kind: model.BcnRec, From: "W1", ID: 1, S: []string{"0xzero"}, T: 0}}}}}),
 		one("wpur(W1,#1,9)+wpur(W1,#2,9)+bpur(W1,#1,9)", model.Tx{Msgs: []model.Msg{{Kind: model.WrkPur, From: "W1", ID: 1, N: 9}, {Kind: model.WrkPur, From: "W1", ID: 2, N: 9}, {Kind: model.BcnPur, From: "W1", ID: 1, N: 9}}, Fee: fee(27 + 27 + 63)}),
 		one("wpur(W1,#2,9)+wpur(W1,#1,9)", model.Tx{Msgs: []model.Msg{{Kind: model.WrkPur, From: "W1", ID: 2, N: 9}, {Kind: model.WrkPur, From: "W1", ID: 1, N: 9}}, Fee: fee(54)}),
+		// two BEACON ids in one over-limit purchase, both orders (the BEACON ante loop)
+		one("bpur(W1,#1,9)+bpur(W1,#2,9)", model.Tx{Msgs: []model.Msg{{Kind: model.BcnPur, From: "W1", ID: 1, N: 9}, {Kind: model.BcnPur, From: "W1", ID: 2, N: 9}}, Fee: fee(126)}),
+		one("bpur(W1,#2,9)+bpur(W1,#1,1)", model.Tx{Msgs: []model.Msg{{Kind: model.BcnPur, From: "W1", ID: 2, N: 9}, {Kind: model.BcnPur, From: "W1", ID: 1, N: 1}}, Fee: fee(70)}),
 		one("wpur(W1,#1,1)", model.Tx{Msgs: []model.Msg{{Kind: model.WrkPur, From: "W1", ID: 1, N: 1}}, Fee: fee(3)}),
 		one("create(A->R1,overflow)", model.Tx{Msgs: []model.Msg{{Kind: model.StrCreate, From: "A", To: "R1", Den: mc.Nund, Amt: pow2(200).String(), Rate: 1}}}),
 		one("wrec(O,#1,next)", model.Tx{Msgs: []model.Msg{{Kind: model.WrkRec, From: "O", ID: 1, H: 77, S: []string{"0xb", "", "", "", ""}}}, Fee: fee(2)}),
